@@ -61,6 +61,11 @@ func (c c17Case) value() *big.Int {
 	case "const":
 		v := hx.BigHex(c.Val)
 		return v.Mod(v, ref.P)
+	case "montraw": // the INTERNAL (Montgomery) limbs are the pattern Val: value = Val * 2^-256 mod p
+		v := hx.BigHex(c.Val)
+		v.Mod(v, ref.P)
+		v.Mul(v, rInvP)
+		return v.Mod(v, ref.P)
 	case "square":
 		w := hx.Expand(c.Seed, "c17sq", 0)
 		return w.Mul(w, w).Mod(w, ref.P)
@@ -100,6 +105,23 @@ func (c c17Case) value() *big.Int {
 func refPointLite(seed uint64) *big.Int {
 	x, _ := ref.Fast.Affine(ref.Fast.Mul(ref.Fast.Generator(), hx.ExpandFr(seed, "c17pt", 0)))
 	return x
+}
+
+var rInvP = new(big.Int).ModInverse(new(big.Int).Lsh(big.NewInt(1), 256), ref.P)
+
+// internal-representation patterns: small words and limb-aligned values
+func montRawPatterns() []*big.Int {
+	var out []*big.Int
+	for _, k := range []int64{1, 2, 3, 4, 5, 255, 256, 65535} {
+		out = append(out, big.NewInt(k))
+	}
+	m64 := new(big.Int).SetUint64(^uint64(0))
+	out = append(out, m64, new(big.Int).Lsh(big.NewInt(1), 63))
+	for limb := uint(1); limb < 4; limb++ {
+		out = append(out, new(big.Int).Lsh(big.NewInt(1), 64*limb), new(big.Int).Lsh(m64, 64*limb),
+			new(big.Int).Add(new(big.Int).Lsh(big.NewInt(1), 64*limb), big.NewInt(1)))
+	}
+	return out
 }
 
 var halfPc17 = new(big.Int).Rsh(new(big.Int).Sub(ref.P, big.NewInt(1)), 1)
@@ -185,7 +207,7 @@ var c17Consts = []string{"0", "1", "2", "3", "4", "5"}
 
 func genC17(t *rapid.T) c17Case {
 	c := c17Case{Mode: rapid.SampledFrom([]string{"sqrt", "sqrt", "point"}).Draw(t, "mode"), Seed: rapid.Uint64().Draw(t, "seed"), Big: rapid.Bool().Draw(t, "largest")}
-	c.Kind = rapid.SampledFrom([]string{"dyadic", "dyadic", "dyadic", "const", "uniform", "square", "nonsquare", "rootofunity", "encoding", "y_near_half"}).Draw(t, "kind")
+	c.Kind = rapid.SampledFrom([]string{"dyadic", "dyadic", "dyadic", "const", "uniform", "square", "nonsquare", "rootofunity", "encoding", "y_near_half", "montraw"}).Draw(t, "kind")
 	if c.Kind == "y_near_half" {
 		c.Mode = "point"
 		c.E = uint32(rapid.IntRange(0, 1<<20).Draw(t, "k"))
@@ -208,6 +230,13 @@ func genC17(t *rapid.T) c17Case {
 		c.E = e
 	case "rootofunity":
 		c.E = uint32(rapid.IntRange(0, 32).Draw(t, "k"))
+	case "montraw":
+		pats := montRawPatterns()
+		if rapid.Bool().Draw(t, "raw_small") {
+			c.Val = hx.HexBig(big.NewInt(int64(rapid.IntRange(0, 100000).Draw(t, "raw_int"))))
+		} else {
+			c.Val = hx.HexBig(pats[rapid.IntRange(0, len(pats)-1).Draw(t, "raw_pat")])
+		}
 	case "const":
 		switch rapid.IntRange(0, 3).Draw(t, "const_class") {
 		case 0:
@@ -316,6 +345,13 @@ func TestC17(t *testing.T) {
 		for _, mode := range []string{"sqrt", "point"} {
 			for _, lg := range []bool{true, false} {
 				c17Part.EvalCase(s, c17Case{Mode: mode, Kind: "const", Val: v, Big: lg})
+			}
+		}
+	}
+	for i, pat := range montRawPatterns() { // values whose internal limbs are small words / limb-aligned
+		if hx.Sharded(i) {
+			for _, mode := range []string{"sqrt", "point"} {
+				c17Part.EvalCase(s, c17Case{Mode: mode, Kind: "montraw", Val: hx.HexBig(pat), Big: i%2 == 0})
 			}
 		}
 	}
